@@ -694,6 +694,86 @@ def reject_check(case):
     return ok(True, obs=type(exc).__name__)
 
 
+# ------------------------------------------------------------------------------------------------ caller-supplied tolerances
+# Added after seeded change C06-4 (is_quantum_channel stopped forwarding rtol/atol to its trace-preservation test): every
+# predicate with (rtol, atol) parameters is called with TIGHT tolerances (1e-9) on maps that violate the definition by 2e-6
+# - far above the requested tolerance, inside the default one - and on the exact maps as a control.
+TOL_DELTA = 2e-6
+
+
+def _tol_base_maps(d):
+    from mc import catalog
+
+    U = catalog.unitary(d, "g0")
+    V = catalog.generic_unitary(2 * d, 0)[:, :d]
+    return {"unitary": [U], "stinespring": [V[:d, :], V[d:, :]],
+            "mixed_unitary": [np.sqrt(0.25) * catalog.unitary(d, "F"), np.sqrt(0.75) * catalog.unitary(d, "g1")]}
+
+
+def _choi(ks, d):
+    J = np.zeros((d * d, d * d), dtype=complex)
+    for i in range(d):
+        for j in range(d):
+            E = np.zeros((d, d), dtype=complex)
+            E[i, j] = 1
+            J += np.kron(E, sum(K @ E @ K.conj().T for K in ks))
+    return J
+
+
+def tolerance_cases(tier, seed):
+    for d in (2, 3):
+        for base in ("unitary", "stinespring", "mixed_unitary"):
+            for defect in ("none", "scale", "negeig", "nonherm"):
+                for rep in ("flat", "pairs", "choi"):
+                    if defect in ("negeig", "nonherm") and rep != "choi":
+                        continue
+                    for pred in ("is_trace_preserving", "is_unital", "is_completely_positive", "is_herm_preserving", "is_quantum_channel"):
+                        yield {"d": d, "base": base, "defect": defect, "rep": rep, "pred": pred}
+
+
+def tolerance_check(case):
+    import toqito.channel_props as cp_mod
+
+    d, pred = case["d"], case["pred"]
+    ks = _tol_base_maps(d)[case["base"]]
+    defect = case["defect"]
+    if defect == "scale":
+        ks = [np.sqrt(1 + TOL_DELTA) * K for K in ks]
+    J = _choi(ks, d)
+    if defect == "negeig":
+        w, v = np.linalg.eigh((J + J.conj().T) / 2)
+        if w[0] > 1e-12:
+            return indet("Choi matrix has full rank: no kernel direction for an exact -delta eigenvalue")
+        J = J - TOL_DELTA * np.outer(v[:, 0], v[:, 0].conj())
+    if defect == "nonherm":
+        J = J.copy()
+        J[0, 1] += TOL_DELTA
+    # ground truth from plain arithmetic
+    tp_dev = np.abs(np.einsum("iaja->ij", J.reshape(d, d, d, d)) - np.eye(d)).max()
+    un_dev = np.abs(np.einsum("iaib->ab", J.reshape(d, d, d, d)) - np.eye(d)).max()
+    herm_dev = np.abs(J - J.conj().T).max()
+    lmin = np.linalg.eigvalsh((J + J.conj().T) / 2).min()
+    truth = {"is_trace_preserving": tp_dev, "is_unital": un_dev, "is_herm_preserving": herm_dev}
+    if pred == "is_completely_positive":
+        bad = max(herm_dev, -lmin)
+    elif pred == "is_quantum_channel":
+        bad = max(herm_dev, -lmin, tp_dev)
+    else:
+        bad = truth[pred]
+    if 1e-11 < bad < 1e-6:
+        return indet("deviation inside the band between the exact and the perturbed case")
+    expected = bad <= 1e-11
+    obj = {"flat": list(ks), "pairs": [[K, K] for K in ks], "choi": J}[case["rep"]]
+    fn = getattr(cp_mod, pred)
+    got, exc = call(fn, obj, rtol=1e-9, atol=1e-9)
+    if exc is not None:
+        return viol(f"{pred}(rtol=1e-9, atol=1e-9) raised on the {case['rep']} form: " + exc_text(exc), site=f"{pred}:tolerance:exception")
+    if bool(got) != expected:
+        return viol(f"{pred}(rtol=1e-9, atol=1e-9) = {got} on a map that deviates from the definition by {bad:.2e} ({defect}, {case['rep']} form): "
+                    f"the caller's tolerance is not applied", site=f"{pred}:tolerance", observed=bool(got), expected=expected)
+    return ok(defect != "none", obs=bool(got))
+
+
 CLAUSES = [
     Clause("C06.predicates", predicate_cases, predicate_check, tol="exact (booleans / integers on margin cases: <=1e-10 or >=1e-3)",
            doc="ground-truth catalogue x representation x predicate: verdict = definition", alphabets=predicate_alphabets, weight=0.002),
@@ -702,4 +782,10 @@ CLAUSES = [
     Clause("C06.builtin_flags", flags_cases, flags_check, tol="exact (booleans / integers on margin cases)",
            doc="every predicate on the object a constructor returns = verdict of the textbook map (independent eigen / trace arithmetic)", weight=0.003),
     Clause("C06.builtin_reject", reject_cases, reject_check, tol="exact", doc="values just outside a documented parameter range raise ValueError"),
+    Clause("C06.tolerances", tolerance_cases, tolerance_check, tol="rtol=atol=1e-9 vs deviation 2e-6",
+           doc="caller-supplied tight tolerances reach every sub-test: maps violating the definition by 2e-6 are refused, exact maps accepted"),
 ]
+
+# every toqito call of this property is repeated with column-major copies of its array arguments (engine.call, layout twin)
+for _c in CLAUSES:
+    _c.layout_twin = True
